@@ -21,6 +21,17 @@ pub struct Case {
     pub script: SubScript,
     pub value: u64,
     pub sign: Option<Key>,
+    /// reach the transaction through a history: start from a variant that differs in one field, warm the hash
+    /// cache with `warm_flag`, then set that field to its final value through the mutation API
+    pub history: Option<History>,
+}
+
+#[derive(Clone, Debug, Serialize, Deserialize)]
+pub struct History {
+    pub warm_flag: u8,
+    /// 0 sequence, 1 vout, 2 txid byte of an input; 3 value, 4 script of an output; 5 version; 6 locktime
+    pub field: u8,
+    pub which: u16,
 }
 
 impl Property for C03 {
@@ -28,7 +39,7 @@ impl Property for C03 {
     const ID: &'static str = "C03";
 
     fn rule() -> String {
-        "Transactions with 1..6 inputs and 0..6 outputs (sometimes 250+), fields from the boundary sets, parsed fresh from bytes; every input index; the six FORKID flags; subscripts from the script grammar with total lengths incl. 0, 252..256, 65535..65537; any u64 value. Oracle: preimage computed from the wire fields by the replay-protected sighash specification (refimpl::sighash); for a quarter of the cases Transaction::sign, whose (r,s) are verified by the reference secp256k1 ECDSA under the reference public key over reference SHA-256d of the reference preimage. Non-trivial = input index > 0, a non-palindromic sequence, a flag other than 0x41, a subscript of >= 253 bytes, or a signing case; distinct by hash of the serialised case.".into()
+        "Transactions with 1..6 inputs and 0..6 outputs (sometimes 250+), fields from the boundary sets, parsed fresh from bytes or (30 %) reached through the mutation API after the hash cache was filled for a one-field variant; every input index; the six FORKID flags; subscripts from the script grammar with total lengths incl. 0, 252..256, 65535..65537; any u64 value. Oracle: preimage computed from the wire fields by the replay-protected sighash specification (refimpl::sighash); for a quarter of the cases Transaction::sign, whose (r,s) are verified by the reference secp256k1 ECDSA under the reference public key over reference SHA-256d of the reference preimage. Non-trivial = input index > 0, a non-palindromic sequence, a flag other than 0x41, a subscript of >= 253 bytes, or a signing case; distinct by hash of the serialised case.".into()
     }
 
     fn assumptions() -> Vec<String> {
@@ -40,8 +51,8 @@ impl Property for C03 {
     }
 
     fn strategy(_tier: Tier) -> BoxedStrategy<Case> {
-        (gtx_sig(), any::<u16>(), prop::sample::select(FORKID_FLAGS.to_vec()), subscript(2), gen::u64_edge(), prop::option::weighted(0.25, keys::key()))
-            .prop_map(|(tx, idx, flag, script, value, sign)| Case { tx, idx, flag, script, value, sign })
+        (gtx_sig(), any::<u16>(), prop::sample::select(FORKID_FLAGS.to_vec()), subscript(2), gen::u64_edge(), prop::option::weighted(0.25, keys::key()), prop::option::weighted(0.3, (0u8..6, 0u8..7, any::<u16>()).prop_map(|(warm_flag, field, which)| History { warm_flag, field, which })))
+            .prop_map(|(tx, idx, flag, script, value, sign, history)| Case { tx, idx, flag, script, value, sign, history })
             .boxed()
     }
 
@@ -52,7 +63,55 @@ impl Property for C03 {
         let sbytes = c.script.bytes();
         let script = lib_call("Script::from_bytes", || Script::from_bytes(&sbytes))?.map_err(|e| failure("subscript_accepted", format!("Err({})", e), "Ok: grammar script"))?;
         let sh = sighash_of(c.flag)?;
-        let mut tx = parse_fresh(&r)?;
+        let mut tx = match &c.history {
+            None => parse_fresh(&r)?,
+            Some(h) => {
+                // the same contents, reached through the mutation API after the cache was filled
+                let mut r0 = r.clone();
+                let wi = gen::pick(h.which, r.ins.len());
+                let wo = if r.outs.is_empty() { None } else { Some(gen::pick(h.which, r.outs.len())) };
+                match (h.field % 7, wo) {
+                    (0, _) => r0.ins[wi].sequence ^= 0x0001_0100,
+                    (1, _) => r0.ins[wi].vout = r0.ins[wi].vout.wrapping_add(1),
+                    (2, _) => r0.ins[wi].txid_wire[7] ^= 0x20,
+                    (3, Some(k)) => r0.outs[k].value ^= 0x100,
+                    (4, Some(k)) => r0.outs[k].script.push(0x51),
+                    (5, _) | (3, None) => r0.version ^= 2,
+                    _ => r0.locktime ^= 4,
+                }
+                // keep coinbase-form inputs parseable: an input that changes its null-outpoint status is skipped
+                if r0.ins[wi].is_null_outpoint() != r.ins[wi].is_null_outpoint() {
+                    parse_fresh(&r)?
+                } else {
+                    let mut t = parse_fresh(&r0)?;
+                    let warm = sighash_of(FORKID_FLAGS[(h.warm_flag % 6) as usize])?;
+                    let _ = lib_call("sighash_preimage(warm)", || t.sighash_preimage(warm, idx, &script, c.value))?;
+                    match (h.field % 7, wo) {
+                        (0, _) | (1, _) | (2, _) => {
+                            let mut x = t.get_input(wi).ok_or_else(|| failure("get_input", "None", "Some"))?;
+                            x.set_sequence(r.ins[wi].sequence);
+                            x.set_vout(r.ins[wi].vout);
+                            x.set_prev_tx_id(&r.ins[wi].txid_display());
+                            lib_call("set_input", || t.set_input(wi, &x))?;
+                        }
+                        (3, Some(k)) | (4, Some(k)) => {
+                            let s = lib_call("Script::from_bytes", || Script::from_bytes(&r.outs[k].script))?.map_err(|e| failure("output_script_accepted", e.to_string(), "Ok"))?;
+                            lib_call("set_output", || t.set_output(k, &bsv::TxOut::new(r.outs[k].value, &s)))?;
+                        }
+                        (5, _) | (3, None) => {
+                            let _ = t.set_version(r.version);
+                        }
+                        _ => {
+                            let _ = t.set_nlocktime(r.locktime);
+                        }
+                    }
+                    let now = t.to_bytes().map_err(|e| failure("to_bytes", e.to_string(), "Ok"))?;
+                    crate::ensure_eq_hex!(now, crate::refimpl::wire::encode_tx(&r), "history_reaches_target_contents");
+                    o.nt("reached-through-history");
+                    t
+                }
+            }
+        };
         let got = lib_call("sighash_preimage", || tx.sighash_preimage(sh, idx, &script, c.value))?;
         let want = sighash::forkid_preimage(&r, idx, c.flag as u32, &sbytes, c.value);
         let spec_total = sighash::forkid_preimage_total(&r, idx, c.flag as u32, &sbytes, c.value);
